@@ -10,11 +10,15 @@
      (c) forall size evs, committed_agree (run rv size evs): no two nodes hold different entries at an index
          both have committed.
    (a), (b) are proved for every revision.  (c) is false of the faithful model of EVERY revision (`C28c_refuted*`):
-   the election repairs remove the class `ack below voted term` (and the two election classes) but not the two
+   the election repairs remove the class `ack below voted term` (and the two election classes) but not the
    log-replication defects.  `classes h` = (double vote, stale vote counted, ack from diverged log, old-term
-   commit, ack below voted term) are the decidable defect classes of a history. *)
+   commit, ack below voted term) are the decidable defect classes of a history; a THIRD log-replication class,
+   `commit-without-quorum` (RaftLog.v), was found while attempting the conditional proof.
+   CONDITIONAL THEOREM `C28c_partial` for the code in /repo (rr_fixed): if none of the three log-replication
+   classes occurs in the run, (c) holds — these three classes are the only ways raft.rs (with the C27 repairs)
+   can commit different entries at one index. *)
 From Coq Require Import NArith List.
-From Agdb Require Import Raft RaftWitness RaftProofs RaftInv.
+From Agdb Require Import Raft RaftWitness RaftProofs RaftInv RaftLog RaftLogProofs RaftLogMatch RaftLogLC RaftLogCA.
 Import ListNotations.
 Open Scope N_scope.
 
@@ -70,3 +74,103 @@ Theorem C28c_refuted_ack_below_vote :
     election_safety (c_hist c) /\ classes (c_hist c) = (false, false, false, false, true) /\ ~ committed_agree c.
 Proof. exact C28c_refuted_ack_below_vote. Qed.
 Print Assumptions C28c_refuted_ack_below_vote.
+
+(* ------------------------------------------------------------------ a THIRD log-replication class (RaftLog.v)
+   `commit_noquorum_b rv size evs` (KnownClass commit-without-quorum): a Leader raised its commit index over an
+   index at which fewer than size/2+1 nodes of its term hold its entry — commit() counts rows of the peer table
+   that are not acknowledgements of the current term (rows are never reset on election, update_node writes them
+   from the peer's own requests, response() accepts acknowledgements of any term).
+   4 (every revision): a 5-node history with one leader per term in which NONE of the five classes of `classes`
+   occurs ends with two nodes that have committed different entries at index 2 (corpus/C28/commit_noquorum.txt). *)
+Theorem C28c_refuted_commit_noquorum : forall rv,
+  exists size evs, let c := run rv size evs in
+    size <> 1 /\ election_safety (c_hist c) /\ classes (c_hist c) = (false, false, false, false, false) /\
+    commit_noquorum_b rv size evs = true /\ ~ committed_agree c.
+Proof. exact RaftLogProofs.C28c_refuted_commit_noquorum. Qed.
+Print Assumptions C28c_refuted_commit_noquorum.
+
+(* hence "no acknowledgement from a diverged log and no old-term commit" does NOT imply (c) *)
+Theorem C28c_two_classes_not_enough : forall rv,
+  ~ (forall size evs, size <> 1 ->
+       ack_diverged_b (c_hist (run rv size evs)) = false -> old_term_commit_b (c_hist (run rv size evs)) = false ->
+       committed_agree (run rv size evs)).
+Proof. exact two_classes_not_enough_C28c. Qed.
+Print Assumptions C28c_two_classes_not_enough.
+
+(* ------------------------------------------------------------------ towards a conditional theorem for (c)
+   LOG MATCHING, PROVED for the repaired election code (rr_fixed = the code in /repo), every cluster size other
+   than 1 and every adversarial event list, under the single hypothesis that the class ack-from-diverged-log does
+   not occur: if two nodes hold entries of the same term at index idx, their logs agree at every index <= idx
+   (so an (index, term) pair determines the entry, data included).  Proof: RaftLogWf.v, RaftLogMatch.v (inductive
+   invariant LI; C27_election_safety is used at every step).
+   This is step (1) of the standard safety argument; steps (2) leader completeness and (3) agreement follow below. *)
+Theorem C28_log_matching_partial : forall size evs,
+  size <> 1 -> ack_diverged_b (c_hist (run rr_fixed size evs)) = false ->
+  forall a b, In a (c_nodes (run rr_fixed size evs)) -> In b (c_nodes (run rr_fixed size evs)) ->
+  forall idx ea eb, log_at (n_logs a) idx = Some ea -> log_at (n_logs b) idx = Some eb -> e_term ea = e_term eb ->
+  forall j, j <= idx -> log_at (n_logs a) j = log_at (n_logs b) j.
+Proof. exact RaftLogMatch.log_matching_partial. Qed.
+Print Assumptions C28_log_matching_partial.
+
+(* same hypothesis: every log is well formed — the entry at index idx carries index idx and a term <= the node's
+   term, and terms are sorted along the log *)
+Theorem C28_logs_wf_partial : forall size evs nd,
+  size <> 1 -> ack_diverged_b (c_hist (run rr_fixed size evs)) = false -> In nd (c_nodes (run rr_fixed size evs)) ->
+  (forall idx e, log_at (n_logs nd) idx = Some e -> e_index e = idx /\ e_term e <= n_term nd) /\
+  (forall i j ei ej, i <= j -> log_at (n_logs nd) i = Some ei -> log_at (n_logs nd) j = Some ej -> e_term ei <= e_term ej).
+Proof. exact RaftLogMatch.logs_wf_partial. Qed.
+Print Assumptions C28_logs_wf_partial.
+
+(* non-vacuity: a fault-free 3-node history (node 0 elected; two entries replicated to and committed on all three
+   nodes) satisfies the hypothesis (and has no old-term commit) *)
+Example C28_log_matching_nonvacuous :
+  let c := run rr_fixed 3 RaftLogMatch.wlog_ok in
+  ack_diverged_b (c_hist c) = false /\ old_term_commit_b (c_hist c) = false /\
+  map n_commit (c_nodes c) = [2; 2; 2] /\
+  map n_logs (c_nodes c) = [[mkEntry 1 1 11; mkEntry 2 1 12]; [mkEntry 1 1 11; mkEntry 2 1 12]; [mkEntry 1 1 11; mkEntry 2 1 12]].
+Proof. exact RaftLogMatch.wlog_ok_facts. Qed.
+Print Assumptions C28_log_matching_nonvacuous.
+
+(* ------------------------------------------------------------------ the CONDITIONAL THEOREM for (c)
+   PROVED for the repaired election code (rr_fixed = the code in /repo), every cluster size other than 1 and every
+   adversarial event list: if none of the three log-replication classes occurs in the run
+        ack-from-diverged-log   ack_diverged_b (c_hist ..) = false
+        old-term-commit         old_term_commit_b (c_hist ..) = false
+        commit-without-quorum   commit_noquorum_b rr_fixed size evs = false
+   then no two nodes hold different entries at an index both have committed.
+   Proof: RaftLogWf.v, RaftLogMatch.v (log matching), RaftLogHand.v, RaftLogLC.v (leader completeness, invariant LC),
+   RaftLogCA.v (invariant CA: every committed index of every node was committed by a leader with the entry the node
+   holds; two leader commits of one index are commits of the same entry). *)
+Theorem C28c_partial : forall size evs,
+  size <> 1 ->
+  ack_diverged_b (c_hist (run rr_fixed size evs)) = false ->
+  old_term_commit_b (c_hist (run rr_fixed size evs)) = false ->
+  commit_noquorum_b rr_fixed size evs = false ->
+  committed_agree (run rr_fixed size evs).
+Proof. exact RaftLogCA.C28c_partial_stmt. Qed.
+Print Assumptions C28c_partial.
+
+(* same hypotheses: whatever a node has committed was committed by a leader, and the node holds that entry *)
+Theorem C28c_committed_by_leader_partial : forall size evs nd idx,
+  size <> 1 ->
+  ack_diverged_b (c_hist (run rr_fixed size evs)) = false ->
+  old_term_commit_b (c_hist (run rr_fixed size evs)) = false ->
+  commit_noquorum_b rr_fixed size evs = false ->
+  In nd (c_nodes (run rr_fixed size evs)) -> 1 <= idx -> idx <= n_commit nd ->
+  exists i T e, In (GCommit i true T idx (Some e)) (c_hist (run rr_fixed size evs)) /\ log_at (n_logs nd) idx = Some e.
+Proof. exact RaftLogCA.C28c_committed_by_leader_stmt. Qed.
+Print Assumptions C28c_committed_by_leader_partial.
+
+(* non-vacuity: the fault-free 3-node history `wlog_ok` (node 0 elected, two entries replicated to and committed on
+   all three nodes) satisfies the three hypotheses *)
+Example C28c_partial_nonvacuous :
+  (ack_diverged_b (c_hist (run rr_fixed 3 RaftLogMatch.wlog_ok)) = false /\
+   old_term_commit_b (c_hist (run rr_fixed 3 RaftLogMatch.wlog_ok)) = false /\
+   commit_noquorum_b rr_fixed 3 RaftLogMatch.wlog_ok = false) /\
+  RaftLogLC.late_leader_b (c_hist (run rr_fixed 3 RaftLogMatch.wlog_ok)) = false /\
+  map n_commit (c_nodes (run rr_fixed 3 RaftLogMatch.wlog_ok)) = [2; 2; 2] /\
+  leader_completeness_b (c_hist (run rr_fixed 3 RaftLogMatch.wlog_ok)) = true /\
+  existsb (fun g => match g with GCommit _ true _ _ _ => true | _ => false end)
+          (c_hist (run rr_fixed 3 RaftLogMatch.wlog_ok)) = true.
+Proof. exact RaftLogCA.nonvacuous_stmt. Qed.
+Print Assumptions C28c_partial_nonvacuous.
